@@ -29,8 +29,8 @@
     is a model, tied to real go-sqlite3 by the correspondence stages. *)
 From Coq Require Import List NArith ZArith Bool Arith.
 From Atlas Require Import Base.Bytes Diff.Schema Diff.DiffModel Diff.DiffSqlite
-  Sqlite.PlanModel Sqlite.EngineModel Sqlite.InspectModel Sqlite.ConvergeDefs Sqlite.ConvergeStep Sqlite.Converge
-  Sqlite.ConvergeSupported.
+  Sqlite.PlanModel Sqlite.PlanProofs Sqlite.EngineModel Sqlite.InspectModel Sqlite.ConvergeDefs Sqlite.ConvergeStep
+  Sqlite.Converge Sqlite.ConvergeSupported.
 Import ListNotations.
 
 (** ** the theorems *)
@@ -75,6 +75,20 @@ Theorem C01_create_converges :
     exists p d', diff_and_plan nm [] B = Some p /\ exec_all empty_db (plan_stmts p) = Ok d' /\ synced nm d' B.
 Proof. exact (fun nm B H => converges_supported nm empty_db B H). Qed.
 Print Assumptions C01_create_converges.
+
+(** for every input of the planner (no hypothesis on the schemas or on the change list): a plan that drops
+    a table -- DROP TABLE or the rebuild -- is bracketed by PRAGMA foreign_keys = off / on, no other plan
+    contains a pragma, Reversible is computed on the changes between the brackets, Transactional is set *)
+Theorem C01_plan_fk_bracket :
+  forall (from to : xschema) (cs : list schange) (p : plan),
+    PlanChanges from to cs = Some p ->
+    exists (body : list pchange) (sk : bool),
+      p_changes p = (if sk then mkPC (SPragmaFK false) [] CmFKOff :: body ++ [mkPC (SPragmaFK true) [] CmFKOn] else body) /\
+      forallb (fun c => negb (is_pragma (pc_cmd c))) body = true /\
+      (sk = false -> forallb (fun c => negb (is_drop_table (pc_cmd c))) body = true) /\
+      p_reversible p = set_reversible body /\ p_transactional p = true.
+Proof. exact plan_fk_bracket. Qed.
+Print Assumptions C01_plan_fk_bracket.
 
 (** ** witnesses *)
 Definition nm : str := [109]%N.
@@ -122,6 +136,12 @@ Example C01_ex_plans :
    match diff_and_plan nm (inspect (run empty_db ex_A)) ex_B with Some p => length (p_changes p) | None => 0 end,
    match diff_and_plan nm (inspect (run (run empty_db ex_A) ex_B)) ex_C with Some p => length (p_changes p) | None => 0 end)
   = (1, 2, 7).
+Proof. vm_compute. reflexivity. Qed.
+Example C01_ex_bracket :
+  match diff_and_plan nm (inspect (run (run empty_db ex_A) ex_B)) ex_C with
+  | Some p => map (fun c => is_pragma (pc_cmd c)) (p_changes p)
+  | None => []
+  end = [true; false; false; false; false; false; true].
 Proof. vm_compute. reflexivity. Qed.
 Example C01_ex_converged :
   converged (run empty_db ex_A) ex_A && converged (run (run empty_db ex_A) ex_B) ex_B
